@@ -141,8 +141,8 @@ func podAffTerm(t PodTerm) corev1.PodAffinityTerm {
 	if len(t.Ns) == 0 {
 		out.Namespaces = nil
 	}
-	if t.NsAll {
-		out.NamespaceSelector = &metav1.LabelSelector{}
+	if t.NsAll || len(t.NsSel) > 0 {
+		out.NamespaceSelector = &metav1.LabelSelector{MatchLabels: t.NsSel}
 	}
 	return out
 }
